@@ -390,7 +390,12 @@ def template_body(case):
             C16.write_tree(top, dict(conv='vectors', config='env', photo=False,
                                      obs=[dict(plate=300, mjd=55100, nf=4, npix=npix, c0=3.55, c1=1e-4), dict(plate=301, mjd=55300, nf=4, npix=npix, c0=3.55, c1=1e-4)]))
             os.environ['BOSS_SPECTRO_REDUX'] = top
-        patches = dict(readspec=inj.wrap('readspec', M.readspec if real_read else f_readspec), skymask=inj.wrap('skymask', lambda iv, a, o, ngrow=2: iv.copy()),
+        class QuietLog(object):
+            # verbose=True switches the package logger to DEBUG; the messages themselves are of no interest here
+            def __getattr__(self, n):
+                return lambda *a, **k: None
+
+        patches = dict(log=QuietLog(), readspec=inj.wrap('readspec', M.readspec if real_read else f_readspec), skymask=inj.wrap('skymask', lambda iv, a, o, ngrow=2: iv.copy()),
                        wavevector=inj.wrap('wavevector', M.wavevector), preprocess_spectra=inj.wrap('preprocess_spectra', f_pre),
                        pca_solve=inj.wrap('pca_solve', f_pca), HMF=FakeHMF, template_qso=inj.wrap('template_qso', f_qso),
                        template_star=inj.wrap('template_star', f_star), plot_eig=inj.wrap('plot_eig', lambda *a, **k: None), plt=FakePlt(), os=OsProxy(inj))
@@ -411,7 +416,7 @@ def template_body(case):
                         cwd = os.getcwd()
                         os.chdir(d)
                         try:
-                            M.template_input(par, dump, flux=case['flux'])
+                            M.template_input(par, dump, flux=case['flux'], verbose=bool(case.get('verbose')))
                         finally:
                             os.chdir(cwd)
                         return 'ok'
@@ -434,6 +439,9 @@ def template_grid(tier):
                     if variant == 'missing-hmf-keys' and method != 'hmf':
                         continue
                     yield dict(run2d=run2d, run1d=run1d, object=obj, method=method, variant=variant, which='niter', flux=False, dump_exists=False, extra=[])
+    for run2d in ('orig2d', None):
+        for run1d in ('orig1d', None):
+            yield dict(run2d=run2d, run1d=run1d, object='gal', method='pca', variant='ok', which='niter', flux=False, dump_exists=False, extra=[], verbose=True)
     # the real reading stage, with and without the variables it consults
     for extra in ([], [['SPECTRO_MATCH', '/nonexistent/match'], ['PHOTO_RESOLVE', '/nonexistent/resolve']]):
         yield dict(run2d=None, run1d='orig1d', object='gal', method='pca', variant='ok', which='niter', flux=False, dump_exists=False, extra=extra, real_read=True)
@@ -449,11 +457,11 @@ def template_case(draw):
                 variant=draw(st.sampled_from(['ok', 'ok', 'missing-keyword', 'non-numeric', 'missing-hmf-keys', 'missing-table', 'unreadable-file', 'low-usemask'])),
                 which=draw(st.sampled_from(PAR_KEYS)), flux=draw(st.booleans()), dump_exists=draw(st.booleans()), extra=extra,
                 parextra=[[k, draw(st.sampled_from(['/data/redux', 'v1_2_3', 'x']))] for k in draw(st.lists(st.sampled_from(PAR_EXTRA), max_size=2, unique=True))],
-                real_read=draw(st.integers(0, 9)) == 0)
+                real_read=draw(st.integers(0, 9)) == 0, verbose=draw(st.booleans()))
 
 
 def template_classify(case):
-    return (['real-readspec'] if case.get('real_read') else ['stub-readspec']) + (['par-extra-keywords'] if case.get('parextra') else []) + ['RUN2D:' + ('set' if case['run2d'] is not None else 'unset'), 'RUN1D:' + ('set' if case['run1d'] is not None else 'unset'),
+    return (['verbose'] if case.get('verbose') else []) + (['real-readspec'] if case.get('real_read') else ['stub-readspec']) + (['par-extra-keywords'] if case.get('parextra') else []) + ['RUN2D:' + ('set' if case['run2d'] is not None else 'unset'), 'RUN1D:' + ('set' if case['run1d'] is not None else 'unset'),
             'obj:' + case['object'], 'method:' + case['method'], 'variant:' + case['variant'], 'flux-plots' if case['flux'] else 'no-flux-plots',
             'dump-exists' if case['dump_exists'] else 'no-dump']
 
